@@ -63,6 +63,10 @@ pub struct BRule {
     /// frames). Generated for C10 and C11 only, whose oracles need no reference semantics of removal
     #[serde(default)]
     pub retracts: Vec<u8>,
+    /// `Aux.list += 1` after the assignments: the rule appends to an ARRAY fact the caller owns (it exists
+    /// before the query). C10 and C11 only, as for `retracts`
+    #[serde(default)]
+    pub appends: bool,
 }
 
 #[derive(Clone, Debug, Serialize, Deserialize, PartialEq)]
@@ -275,6 +279,9 @@ fn build_kb(types: &[Ty], rules: &[BRule]) -> KnowledgeBase {
         }
         for f in &r.retracts {
             actions.push(ActionType::Retract { object: fkey(*f) });
+        }
+        if r.appends {
+            actions.push(ActionType::Append { field: "Aux.list".to_string(), value: Value::Integer(1) });
         }
         if r.fails {
             actions.push(ActionType::MethodCall { object: "Ghost".to_string(), method: "poke".to_string(), args: vec![] });
@@ -773,6 +780,10 @@ fn run_search(
     if rules.iter().any(|r| !r.retracts.is_empty()) {
         obs.count("probe.rule_action_that_retracts_a_fact");
     }
+    if rules.iter().any(|r| r.appends) {
+        facts.set("Aux.list", Value::Array(vec![Value::Integer(0)]));
+        obs.count("probe.rule_action_that_appends_to_an_array_fact");
+    }
     let mut asked: BTreeSet<String> = BTreeSet::new();
     for (step, op) in ops.iter().enumerate() {
         let site = site_of(strategy);
@@ -1231,7 +1242,7 @@ fn gen_search(rng: &mut Rng, hash_seed: u64, c11_ops: bool, with_negation: bool)
         } else {
             vec![]
         };
-        rules.push(BRule { cond, sets, fails, copies, no_loop: rng.chance(1, 4), retracts });
+        rules.push(BRule { cond, sets, fails, copies, no_loop: rng.chance(1, 4), retracts, appends: with_negation && rng.chance(1, 10) });
     }
     // state-machine programs (a quarter of the non-Horn ones): field 0 is a state that rules move from
     // value to value (`F.f0 == a -> F.f0 = b`), field 1 an output concluded from a state
@@ -1245,11 +1256,11 @@ fn gen_search(rng: &mut Rng, hash_seed: u64, c11_ops: bool, with_negation: bool)
         for _ in 0..2 + rng.usize(3) {
             let a = rng.below(nvals as u64) as u8;
             let b = (a + 1 + rng.below(nvals as u64 - 1) as u8) % nvals;
-            m.push(BRule { cond: BCond::Atom(BAtom { field: 0, op: 0, lit: a }), sets: vec![(0, b)], fails: false, copies: vec![], no_loop: false, retracts: vec![] });
+            m.push(BRule { cond: BCond::Atom(BAtom { field: 0, op: 0, lit: a }), sets: vec![(0, b)], fails: false, copies: vec![], no_loop: false, retracts: vec![], appends: false });
         }
         let v = rng.below(3) as u8;
         for _ in 0..1 + rng.usize(2) {
-            m.push(BRule { cond: BCond::Atom(BAtom { field: 0, op: 0, lit: rng.below(nvals as u64) as u8 }), sets: vec![(1, v)], fails: false, copies: vec![], no_loop: false, retracts: vec![] });
+            m.push(BRule { cond: BCond::Atom(BAtom { field: 0, op: 0, lit: rng.below(nvals as u64) as u8 }), sets: vec![(1, v)], fails: false, copies: vec![], no_loop: false, retracts: vec![], appends: false });
         }
         m.extend(rules.iter().take(rng.usize(3)).cloned());
         rng.shuffle(&mut m);
@@ -1519,25 +1530,28 @@ impl World for BwdWorld {
                     let mut alts: Vec<BRule> = Vec::new();
                     match &r.cond {
                         BCond::And(a, b) | BCond::Or(a, b) => {
-                            alts.push(BRule { cond: (**a).clone(), sets: r.sets.clone(), fails: r.fails, copies: r.copies.clone(), no_loop: r.no_loop, retracts: r.retracts.clone() });
-                            alts.push(BRule { cond: (**b).clone(), sets: r.sets.clone(), fails: r.fails, copies: r.copies.clone(), no_loop: r.no_loop, retracts: r.retracts.clone() });
+                            alts.push(BRule { cond: (**a).clone(), sets: r.sets.clone(), fails: r.fails, copies: r.copies.clone(), no_loop: r.no_loop, retracts: r.retracts.clone(), appends: r.appends });
+                            alts.push(BRule { cond: (**b).clone(), sets: r.sets.clone(), fails: r.fails, copies: r.copies.clone(), no_loop: r.no_loop, retracts: r.retracts.clone(), appends: r.appends });
                         }
                         _ => {}
                     }
                     if r.fails {
-                        alts.push(BRule { cond: r.cond.clone(), sets: r.sets.clone(), fails: false, copies: r.copies.clone(), no_loop: r.no_loop, retracts: r.retracts.clone() });
+                        alts.push(BRule { cond: r.cond.clone(), sets: r.sets.clone(), fails: false, copies: r.copies.clone(), no_loop: r.no_loop, retracts: r.retracts.clone(), appends: r.appends });
+                        if r.appends {
+                            alts.push(BRule { cond: r.cond.clone(), sets: r.sets.clone(), fails: r.fails, copies: r.copies.clone(), no_loop: r.no_loop, retracts: r.retracts.clone(), appends: false });
+                        }
                         if !r.retracts.is_empty() {
-                            alts.push(BRule { cond: r.cond.clone(), sets: r.sets.clone(), fails: r.fails, copies: r.copies.clone(), no_loop: r.no_loop, retracts: vec![] });
+                            alts.push(BRule { cond: r.cond.clone(), sets: r.sets.clone(), fails: r.fails, copies: r.copies.clone(), no_loop: r.no_loop, retracts: vec![], appends: r.appends });
                         }
                         if !r.copies.is_empty() {
-                            alts.push(BRule { cond: r.cond.clone(), sets: r.sets.clone(), fails: r.fails, copies: vec![], no_loop: r.no_loop, retracts: r.retracts.clone() });
+                            alts.push(BRule { cond: r.cond.clone(), sets: r.sets.clone(), fails: r.fails, copies: vec![], no_loop: r.no_loop, retracts: r.retracts.clone(), appends: r.appends });
                         }
                     }
                     if r.sets.len() > 1 {
                         for k in 0..r.sets.len() {
                             let mut s = r.sets.clone();
                             s.remove(k);
-                            alts.push(BRule { cond: r.cond.clone(), sets: s, fails: r.fails, copies: r.copies.clone(), no_loop: r.no_loop, retracts: r.retracts.clone() });
+                            alts.push(BRule { cond: r.cond.clone(), sets: s, fails: r.fails, copies: r.copies.clone(), no_loop: r.no_loop, retracts: r.retracts.clone(), appends: r.appends });
                         }
                     }
                     for b in alts {
